@@ -355,4 +355,48 @@ def runWith (sn : Sniff) (cfg : Cfg) (path ae : Bytes) (h0 : Hdrs) (ops : List O
     else
       { panicked := w.panicked, resp := b.resp, decoded := some b.resp.body, outs := r.2 }
 
+/-! ### an outer middleware that uses the writer before the chain reaches the compression middleware -/
+
+/-- the bare writer after a middleware in front ran `pre` on it (`h0`: headers set before that) -/
+def preBase (sn : Sniff) (h0 : Hdrs) (pre : List Op) : Base := (runOps (plainStep sn) { live := h0 } pre).1
+
+/-- the exchange without the middleware: `pre` by the outer middleware, `ops` by the handler (its results only) -/
+def runPlainFrom (sn : Sniff) (h0 : Hdrs) (pre ops : List Op) : Base × List WOut :=
+  let r := runOps (plainStep sn) (preBase sn h0 pre) ops
+  (r.1.finish sn, r.2)
+
+/-- the state in which the middleware leaves a writer it found in state `b0` -/
+def finalCWFrom (sn : Sniff) (cfg : Cfg) (enc : Bytes) (b0 : Base) (ops : List Op) : CW × List WOut :=
+  let r := runOps (CW.step sn) ({ base := b0, thr := cfg.minSize, enc := enc, exclCT := cfg.exclCT } : CW) ops
+  (if r.1.restored then r.1 else r.1.close sn, r.2)
+
+/-- the exchange with the middleware when the writer it wraps has already been used: `New` reads the live header map
+    for its early exit and wraps the writer in the state it finds it — it cannot see whether the header block is
+    already committed. `runWithFrom … [] ops` is `runWith … ops`. -/
+def runWithFrom (sn : Sniff) (cfg : Cfg) (path ae : Bytes) (h0 : Hdrs) (pre ops : List Op) : WithResp :=
+  let b0 := preBase sn h0 pre
+  let enc := active cfg path ae b0.live
+  if enc.isEmpty then
+    let r := runPlainFrom sn h0 pre ops
+    { panicked := r.1.panicked, resp := r.1.resp, decoded := some r.1.resp.body, outs := r.2 }
+  else
+    let r := finalCWFrom sn cfg enc b0 ops
+    let w := r.1
+    let b := w.base.finish sn
+    if w.compress && w.hasWriter then
+      { panicked := w.panicked, resp := { b.resp with body := [] },
+        decoded := if w.closed && b.body.isEmpty then some w.plain else none, outs := r.2 }
+    else
+      { panicked := w.panicked, resp := b.resp, decoded := some b.resp.body, outs := r.2 }
+
+/-- the encoder ran but the header block that went out does not announce the coding (it was committed before the
+    middleware set Content-Encoding): the client takes the encoded bytes for the body -/
+def CW.unlabelled (sn : Sniff) (w : CW) : Bool :=
+  w.compress && w.hasWriter && (hfirst (w.base.finish sn).resp.hdrs kCE != w.enc)
+
+def unlabelled (sn : Sniff) (cfg : Cfg) (path ae : Bytes) (h0 : Hdrs) (pre ops : List Op) : Bool :=
+  let b0 := preBase sn h0 pre
+  let enc := active cfg path ae b0.live
+  if enc.isEmpty then false else (finalCWFrom sn cfg enc b0 ops).1.unlabelled sn
+
 end Rivaas.Compress
